@@ -30,7 +30,7 @@ def rowsTok (p : Pool) (rows : List (List Cell)) : String :=
 def selectReply (s : Pkg) (q : Pkg.Select) : String :=
   match Pkg.selectExec s q with
   | .ok (t, rows) =>
-    s!"cols={",".intercalate (t.columns.map colTokPublic)} n={rows.length} {rowsTok s.pool rows}"
+    s!"cols={"|".intercalate (t.columns.map colTokPublic)} n={rows.length} {rowsTok s.pool rows}"
   | .err k => "err " ++ k.toString
   | .panic _ => "panic"
 
@@ -67,7 +67,7 @@ def snapshot (s : Pkg) : String :=
       | .ok (_, rows) => s!"n={rows.length} {rowsTok s.pool rows}"
       | .err k => "ERR:" ++ k.toString
       | .panic _ => "PANIC"
-    s!"T[{Wire.hexOfStr t.name} {",".intercalate (t.columns.map colTokPublic)} {rows}]"
+    s!"T[{Wire.hexOfStr t.name} {"|".intercalate (t.columns.map colTokPublic)} {rows}]"
   let strs := hexSort ((Pkg.streams s).map fun n =>
     match Pkg.readStream s n with
     | .ok d => s!"{Wire.hexOfStr n}={Wire.hexOfBytes d}"
